@@ -295,15 +295,15 @@ Print Assumptions C06_senc_transport_mixed.
 (* what about a CLEAR input whose traf already carries a seig sample group?  seig is protection signalling that
    EncryptFragment neither writes nor updates, and TrafBox.ParseReadSenc lets its per-sample IV size override the
    tenc's.  If it agrees with the tenc InitProtect writes (or there is none) the decrypt side reads the senc as above;
-   if it contradicts it, the senc EncryptFragment wrote is misread, silently in this witness (16-byte IVs read as two
-   8-byte IVs; reproduced on the real code, see reports/C06.md): such an input is outside the property's "clear track" *)
+   if it contradicts it, the senc EncryptFragment wrote cannot be read (16-byte IVs do not fill the data as 8-byte IVs:
+   an error since the ParseReadBox fix, a silent misread before; reproduced on the real code, see reports/C06.md):
+   such an input is outside the property's "clear track" *)
 Theorem C06_seig_override_refuted :
   let encs := [mkEnc (repeat 1 16) [] []; mkEnc (repeat 2 16) [] []] in
-  exists s box s',
+  exists s box,
     senc_of_r senc_empty encs = Ok s /\ senc_encode s = Ok box /\
-    traf_senc_seig 16 None 100 124 (Some 40) box = Ok s /\
-    traf_senc_seig 16 (Some 8) 100 124 (Some 40) box = Ok s' /\
-    sn_ivs s' <> decoded_ivs encs /\ sn_count s' = 2.
+    traf_senc_seig 16 None 100 124 (Some 40) box = Ok s /\ sn_ivs s = decoded_ivs encs /\
+    traf_senc_seig 16 (Some 8) 100 124 (Some 40) box = Err.
 Proof. exact seig_override_refuted. Qed.
 Print Assumptions C06_seig_override_refuted.
 
